@@ -8,6 +8,8 @@ Three layers, all on the real implementation (scratch build):
   CORRESPONDENCE  the Coq wrapper models fed with the captured raw ARPACK / Louvain answers and with np.sqrt /
                   np.power answers to the questions the model asks, compared with the estimator's attributes.
 """
+import time
+from concurrent.futures import ThreadPoolExecutor
 from fractions import Fraction
 
 import numpy as np
@@ -21,6 +23,7 @@ TOL = 1e-9          # float64 paths (DESIGN App. C)
 RES = 1e-7          # ARPACK residuals, relative to ||M||
 SPEC = 1e-6         # comparison with a dense spectrum (ties within 1e-6 are interchangeable)
 EPS_Q = Fraction(1, 10 ** 6)   # eps of the Coq validators
+COQ_WALL = {}
 REGS = [-1, 0, 0.1, 1]
 
 
@@ -46,7 +49,13 @@ PRELUDE = ('Definition qz (q : Q) := let r := Qred q in (Qnum r, Zpos (Qden r)).
 
 
 def ceval(tag, exprs, **kw):
-    return coq_eval(tag, IMPORTS, exprs, prelude=PRELUDE, **kw)
+    # about eight shards per call: coq_eval runs the shards of one call in parallel
+    kw.setdefault('shard', max(1, -(-len(exprs) // 8)))
+    t = time.time()
+    try:
+        return coq_eval(tag, IMPORTS, exprs, prelude=PRELUDE, **kw)
+    finally:
+        COQ_WALL[tag] = round(COQ_WALL.get(tag, 0) + time.time() - t, 1)
 
 
 def fr(p):
@@ -392,6 +401,7 @@ def gsvd_oracle(ctx, case, out):
     rawn = np.sqrt((np.asarray(er if not case['normalized'] else raw_row(kind, dr, u, s, fs)) ** 2).sum(axis=1))
     noise = rawn <= 1e-9 * max(float(rawn.max()) if len(rawn) else 0.0, 1e-300)
     nonnull = np.abs(a).sum(axis=1) > 0
+    fsp = 1.0 if kind == 'PCA' else fs     # PCA.predict divides by sigma
     for key, res in sorted(out['predict'].items()):
         i = int(key)
         psite = kind + '.predict'
@@ -402,8 +412,8 @@ def gsvd_oracle(ctx, case, out):
             bad('predict on a row of the fitted matrix raises', site=psite, check='predict', err=res['err'], row=i)
             status = 'violation'
             continue
-        degenerate = kind != 'PCA' and fs > 0 and ratio < 1e-9
-        if kind != 'PCA' and fs > 0 and 1e-9 <= ratio < 1e-5:
+        degenerate = fsp > 0 and ratio < 1e-9
+        if fsp > 0 and 1e-9 <= ratio < 1e-5:
             ctx.margin_dropped += 1      # ill-conditioned division by sigma^fs: dropped, not judged
             continue
         got = np.asarray(res['ok'], dtype=float)
@@ -412,7 +422,7 @@ def gsvd_oracle(ctx, case, out):
                 cause='zero_singular_value' if degenerate else 'mismatch', row=i,
                 expected=ir[i].tolist(), observed=got.tolist())
             status = 'violation'
-    if out.get('predict_all') is not None and 'ok' in out['predict_all'] and not (kind != 'PCA' and fs > 0 and ratio < 1e-5):
+    if out.get('predict_all') is not None and 'ok' in out['predict_all'] and not (fsp > 0 and ratio < 1e-5):
         got = np.asarray(out['predict_all']['ok'], dtype=float).reshape(nr, k)
         keep = nonnull & ~(noise if case['normalized'] else np.zeros(nr, dtype=bool))
         if not close(got[keep], ir[keep], 1e-7):
@@ -441,7 +451,7 @@ def gsvd_model_args(case, out):
 
 
 def run_gsvd_correspondence(ctx, items):
-    """GSVD and SVD (PCA's wrapper is the identity on the solver output and is compared directly)."""
+    """GSVD and SVD (PCA: run_pca_correspondence)."""
     if not items:
         return
     args = [gsvd_model_args(c, o) for (c, o) in items]
@@ -515,6 +525,56 @@ def run_gsvd_correspondence(ctx, items):
         if not close(model, got, 1e-8):
             ctx.violation(case['kind'] + '.predict', 'implementation differs from the Coq model of predict', case=case,
                           check='correspondence', kind=case['kind'], row=row, expected=model.tolist(), observed=got.tolist())
+
+
+def run_pca_correspondence(ctx, items):
+    if not items:
+        return
+    ident = '(fun q : Q => q)'
+    args = []
+    for case, out in items:
+        a = dense(case['m'])
+        sol = out['solver']
+        args.append(dict(nr=a.shape[0], nc=a.shape[1], A=qm(a.tolist()), sU=qm(sol['left']), sS=qv(sol['values']), sV=qm(sol['right'])))
+    nk = [frv(v) for v in ceval('c09pn', ['vz (map sqnorm (%s ++ %s))' % (a['sU'], a['sV']) for a in args])]
+    tabs = [tab(k, np.sqrt(np.array([float(x) for x in k]))) if c['normalized'] else ident for (c, _), k in zip(items, nk)]
+    fits = ceval('c09pf', ["let '(a, b, c) := pca_fit %s %s %s %s %s in (mz a, mz b, vz c)" % (
+        t, cbool(c['normalized']), a['sU'], a['sS'], a['sV']) for (c, _), a, t in zip(items, args, tabs)])
+    pexpr, pwho = [], []
+    for n_item, ((c, out), a) in enumerate(zip(items, args)):
+        am = dense(c['m'])
+        for key, res in sorted(out['predict'].items()):
+            if 'ok' in res:
+                pexpr.append(('(pca_mean_col %d %d %s) %s %s %s' % (a['nr'], a['nc'], a['A'], qv(out['singular_values']),
+                                                                   qm(out['right']), qv(am[int(key)].tolist())), c['normalized']))
+                pwho.append((n_item, int(key)))
+    pk = [fr(x) for x in ceval('c09pk', ['qz (pca_predict_norm_key %s)' % e for (e, _) in pexpr])] if pexpr else []
+    preds = ceval('c09pq', ['vz (pca_predict_row %s %s %s)' % (tab([k], [np.sqrt(float(k))]) if nrm else ident, cbool(nrm), e)
+                            for (e, nrm), k in zip(pexpr, pk)]) if pexpr else []
+    for (case, out), fit in zip(items, fits):
+        nr, nc = case['m']['shape']
+        k = len(fit[2])
+
+        def arr(x, r):
+            return np.array([[fl(y) for y in row] for row in frm(x)], dtype=float).reshape(r, k)
+        good = close(arr(fit[0], nr), np.asarray(out['embedding_row']).reshape(nr, k)) and \
+            close(arr(fit[1], nc), np.asarray(out['embedding_col']).reshape(nc, k)) and \
+            close([fl(x) for x in frv(fit[2])], out['singular_values'])
+        ctx.count('corr:PCA', ('corr', case), True)
+        if not good:
+            ctx.violation('PCA.fit', 'implementation differs from the Coq wrapper model fed with the captured solver output',
+                          case=case, check='correspondence', kind='PCA')
+    for (n_item, row), p in zip(pwho, preds):
+        case, out = items[n_item]
+        got = np.asarray(out['predict'][str(row)]['ok'], dtype=float).reshape(-1)
+        sv = np.asarray(out['singular_values'], dtype=float)
+        ctx.count('corr:PCA.predict', ('corrp', case, row), True)
+        if not np.isfinite(got).all() or sv.min() < 1e-5 * sv.max():
+            continue
+        model = np.array([fl(x) for x in frv(p)])
+        if not close(model, got, 1e-8):
+            ctx.violation('PCA.predict', 'implementation differs from the Coq model of predict', case=case,
+                          check='correspondence', kind='PCA', row=row, expected=model.tolist(), observed=got.tolist())
 
 
 # ------------------------------------------------------------------------------------------------
@@ -715,7 +775,7 @@ def run_validators(ctx, eig_items, svd_items):
             who.append((case['kind'] + '.fit', case, j))
     if not exprs:
         return 0
-    vals = ceval('c09val', exprs, shard=40)
+    vals = ceval('c09val', exprs)
     for (site, case, j), ok in zip(who, vals):
         ctx.count('validator:' + site, ('val', case, j), True)
         if ok is not True:
@@ -725,6 +785,24 @@ def run_validators(ctx, eig_items, svd_items):
 
 
 # ------------------------------------------------------------------------------------------------
+class Recorder:
+    """Stands in for ctx inside a worker thread: records count / violation calls for a later ordered replay."""
+    def __init__(self):
+        self.calls = []
+        self.margin_dropped = 0
+
+    def count(self, *a, **k):
+        self.calls.append(('count', a, k))
+
+    def violation(self, *a, **k):
+        self.calls.append(('violation', a, k))
+
+    def replay(self, ctx):
+        for name, a, k in self.calls:
+            getattr(ctx, name)(*a, **k)
+        ctx.margin_dropped += self.margin_dropped
+
+
 def arpack_refused(r):
     """ARPACK (the oracle) gave no answer, e.g. 'Starting vector is zero' on an operator that is identically zero
     (PCA of a matrix with identical rows): nothing to judge."""
@@ -735,11 +813,13 @@ def run(ctx, scratch):
     rng = ctx.rng
     quick = ctx.tier == 'quick'
     nmax = 12
-    n_spec = 420 if quick else 2400
-    n_svd = 420 if quick else 2400
-    n_rp = 150 if quick else 900
-    n_lv = 150 if quick else 900
-    n_corr_spec, n_corr_svd, n_corr_rp, n_corr_lv = (36, 24, 16, 40) if quick else (150, 100, 60, 200)
+    n_spec = 700 if quick else 2400
+    n_svd = 700 if quick else 2400
+    n_rp = 250 if quick else 900
+    n_lv = 250 if quick else 900
+    n_corr_spec, n_corr_svd, n_corr_rp, n_corr_lv = (30, 20, 12, 40) if quick else (150, 100, 60, 200)
+    n_corr_pca = 10 if quick else 50
+    corr_pca = []
     n_val = 100 if quick else 400
     status = {}
 
@@ -814,6 +894,8 @@ def run(ctx, scratch):
             if est != 'PCA' and len(corr_svd) < n_corr_svd and t % 2 == 0 and \
                     np.isfinite(np.asarray(r['ok']['embedding_row'], dtype=float)).all():
                 corr_svd.append((case, r['ok']))
+            if est == 'PCA' and len(corr_pca) < n_corr_pca and np.isfinite(np.asarray(r['ok']['embedding_row'], dtype=float)).all():
+                corr_pca.append((case, r['ok']))
             if st == 'ok' and max(nr, nc) <= 8 and len(val_svd) < n_val // 4:
                 val_svd.append((case, r['ok']))
         # ---- RandomProjection ----------------------------------------------------------------------
@@ -858,13 +940,22 @@ def run(ctx, scratch):
             if st in ('ok', 'error_agree') and len(corr_lv) < n_corr_lv:
                 corr_lv.append((case, r['ok']))
     # ---- model inside Coq ------------------------------------------------------------------------------
-    run_spectral_correspondence(ctx, corr_spec)
-    run_gsvd_correspondence(ctx, corr_svd)
-    run_rp_correspondence(ctx, corr_rp)
-    run_louvain_correspondence(ctx, corr_lv)
-    nval = run_validators(ctx, val_eig, val_svd)
+    t_impl = ctx.elapsed()
+    # the six Coq chains are independent: run them concurrently, each on a recorder, then replay the records into
+    # ctx in a fixed order (deterministic numbering of violations)
+    chains = [(run_spectral_correspondence, (corr_spec,)), (run_gsvd_correspondence, (corr_svd,)),
+              (run_pca_correspondence, (corr_pca,)), (run_rp_correspondence, (corr_rp,)),
+              (run_louvain_correspondence, (corr_lv,)), (run_validators, (val_eig, val_svd))]
+    recs = [Recorder() for _ in chains]
+    with ThreadPoolExecutor(max_workers=len(chains)) as pool:
+        futs = [pool.submit(f, rec, *a) for (f, a), rec in zip(chains, recs)]
+        results = [f.result() for f in futs]
+    for rec in recs:
+        rec.replay(ctx)
+    nval = results[-1]
     ctx.extra['c09_status'] = status
-    ctx.extra['c09_correspondence_cases'] = dict(spectral=len(corr_spec), gsvd_svd=len(corr_svd), random_projection=len(corr_rp),
+    ctx.extra['c09_wall'] = dict(until_impl_done=round(t_impl, 1), coq_models_and_validators=round(ctx.elapsed() - t_impl, 1), per_call=dict(COQ_WALL))
+    ctx.extra['c09_correspondence_cases'] = dict(spectral=len(corr_spec), gsvd_svd=len(corr_svd), pca=len(corr_pca), random_projection=len(corr_rp),
                                                  louvain=len(corr_lv))
     ctx.extra['c09_validator_evaluations'] = nval
     ctx.rule = ('random undirected / directed / rectangular-bipartite graphs (13 families of harness/gen.py, n <= 12, unit, small-integer '
